@@ -22,7 +22,6 @@ the executed schedules are runtime (checks/c16.py runs them and says so in META)
 import Scalibr.Proofs.Worklist
 import Scalibr.Proofs.WorklistSort
 import Scalibr.Proofs.Cache
-import Scalibr.Gen.Ticker
 namespace Scalibr.C16
 open Scalibr Scalibr.Worklist
 
@@ -358,27 +357,7 @@ example :
     s.pcs 0 = .done 0 .err ∧ s.pcs 1 = .done 0 .err ∧ s.pcs 2 = .done 0 (.ok 7) ∧ s.pcs 3 = .done 0 (.ok 7) ∧
     s.nfetch 0 = 2 ∧ s.nerr 0 = 1 ∧ s.cache 0 = none := by decide
 
-/-! ## (c) the status ticker -/
-open Scalibr.Gen.Ticker in
-/-- **C16_ticker_guarded.** Over the table regenerated from extractor/filesystem/*.go: the translator understood
-every lock region; `printStatus` runs on the ticker goroutine (it is reached from the `go func` in `RunFS`); and for
-every pair of accesses to the same `walkContext` field, one on the ticker goroutine and one on the walking
-goroutine, at least one of them a write (initialisation of the not-yet-shared object excepted), BOTH are lexically
-between `statusMu.Lock()` and the matching `Unlock()` / deferred `Unlock()`.  The fields concerned are exactly
-`inodesVisited`, `extractCalls`, `currentPath` … (whatever `sharedFields` evaluates to now) and there is at least one. -/
-theorem C16_ticker_guarded :
-    table.wellFormed = true ∧
-    (funcs.idxOf "printStatus") ∈ tickerFuncs ∧ (funcs.idxOf "handleFile") ∈ walkerFuncs ∧
-    table.conflictsGuarded = true ∧ table.sharedFields ≠ [] := by
-  decide +kernel
-
-/-
-The stronger reading of the design entry — "every field accessed by printStatus that is also written by a
-walker-side function is accessed only under statusMu at EVERY site" (`Table.allSitesGuarded`) — does not hold for
-the unchanged code and is not needed for race freedom: `handleFile` reads `wc.inodesVisited` for the MaxInodes
-test right after releasing the lock, and `RunFS` reads `inodesVisited`/`extractCalls` for its final log line;
-both run on the walking goroutine, which is the only writer of these fields, and the ticker only reads them.
-The translator prints the number of such sites into the evidence (`unguarded_sites_of_shared_fields`).
--/
+/-! ## (c) the status ticker: `C16_ticker_guarded` lives in Properties/C16Ticker.lean, the only module that depends on the
+regenerated table, so that a change of extractor/filesystem that breaks it leaves the obligations above standing. -/
 
 end Scalibr.C16
